@@ -36,6 +36,7 @@ type fnCtx struct {
 	lenMemo map[ssa.Value]Lin
 	defs    []Ineq  // definitional facts (hold wherever the value is defined)
 	lemmas  []lemma // conditional definitional facts
+	splits  [][][]Ineq // case splits: one of the alternatives (each a conjunction) holds
 	defSeen map[string]bool
 
 	facts map[*ssa.BasicBlock][]Fact // branch must-facts at block entry (kill-aware)
@@ -487,6 +488,19 @@ func (c *fnCtx) lin0(v ssa.Value) Lin {
 		case "min", "max":
 			r := c.atom(v)
 			allNonneg := true
+			// the result equals one of the arguments: remembered as a case split
+			var alts [][]Ineq
+			for _, a := range x.Call.Args {
+				la := c.lin(a)
+				q1, ok1 := leq(r, la, "min/max = arg")
+				q2, ok2 := leq(la, r, "min/max = arg")
+				if ok1 && ok2 {
+					alts = append(alts, []Ineq{q1, q2})
+				}
+			}
+			if len(alts) == len(x.Call.Args) {
+				c.splits = append(c.splits, alts)
+			}
 			for _, a := range x.Call.Args {
 				la := c.lin(a)
 				if cal.Builtin == "min" {
